@@ -29,9 +29,9 @@ import xapi
 
 LEAN_DIR = os.environ.get('C19M_LEAN_DIR', core.LEAN_DIR)          # development only: a private copy of lean/
 JGEN_DIR = os.path.join(LEAN_DIR, 'Xrl', 'JGen')
-PROP_MODULES = ['Xrl.Props.C19', 'Xrl.Props.C19b', 'Xrl.Props.C19c', 'Xrl.Props.C19d', 'Xrl.Props.C19e', 'Xrl.Props.C19f']          # all in namespace Xrl.C19; each imports the previous one
+PROP_MODULES = ['Xrl.Props.C19', 'Xrl.Props.C19b', 'Xrl.Props.C19c', 'Xrl.Props.C19d', 'Xrl.Props.C19e', 'Xrl.Props.C19f', 'Xrl.Props.C19g']          # all in namespace Xrl.C19; C19..C19f each import the previous one, C19g (ownership of handed-out objects) stands alone
 PROP_FILES = [os.path.join(LEAN_DIR, *m.split('.')) + '.lean' for m in PROP_MODULES]
-PROPS = PROP_MODULES[-1]
+PROPS = PROP_MODULES[-2]
 NS = 'Xrl.C19'
 TIE_REL = 1e-11        # Float model (glibc libm through Lean) vs JVM (intrinsics / StrictMath): same tables bit for bit, a few ulp per libm call
 RAYL = ('FF_Rayl', 'DCS_Rayl', 'DCSb_Rayl', 'DCSP_Rayl', 'DCSPb_Rayl')
@@ -283,6 +283,33 @@ def hyp_step(ctx, rep, cov, lines):
 
 # ------------------------------------------------------------------------------------------ the step
 
+def object_table_tie(b, objx, cov):
+    """tools/jobjects.py read the field declarations from the Java text; java.lang.reflect reads them from the compiled classes: for every data
+    class the public instance fields must be the same (name, type, final or not), a copy constructor must exist exactly where the table has
+    rows, and every class a public static method returns must be known to the table (or be String / Complex / an array of those)"""
+    out = []
+    ans = xdrv.run_driver(b['jcmd'], ['!classes'], chunk=None)[0].split(' ')
+    if ans[0] != 'ok': return ['the Java driver does not answer `!classes`: %s' % ' '.join(ans)[:200]]
+    refl = {}
+    for d in ans[1:]:
+        m = re.fullmatch(r'(\w+)\{(.*)\}', d)
+        if not m: out.append('unreadable class description %s' % d[:80]); continue
+        items = [x for x in m.group(2).split(',') if x]
+        refl[m.group(1)] = dict(fields=[tuple(x.split(':')) for x in items if x.count(':') == 2], copyctor=('copyctor=yes' in items))
+    tab = {c['cls']: c for c in objx['classes']}
+    for cls, r in refl.items():
+        if cls in ('Complex', 'String'): continue
+        if cls not in tab: out.append('class %s is handed out by the Java port but unknown to tools/jobjects.py (DATA_CLASSES)' % cls); continue
+        want = [(f['name'], f['type'], 'final' if f['final'] else 'MUTABLE') for f in tab[cls]['fields'] if f['public']]
+        if want != r['fields']: out.append('public fields of %s differ between the Java text and the compiled class: %s vs %s' % (cls, want, r['fields']))
+        if tab[cls]['has_copy_ctor'] != r['copyctor']: out.append('copy constructor of %s: text %s, compiled class %s' % (cls, tab[cls]['has_copy_ctor'], r['copyctor']))
+    cov['java_object_table'] = dict(classes={c['cls']: dict(fields=len(c['fields']), copy_ctor=c['has_copy_ctor'], immutable=c['immutable']) for c in objx['classes']},
+                                    copy_ctor_rows={'%s.%s' % (r['cls'], r['field']): r['init'] for r in objx['ctor_rows'] if r['isArray']},
+                                    unrecognised_statements=objx['unrecognised'],
+                                    lookup_returns={'%s.%s' % (r['owner'], r['method']): r['kind'] for r in objx['lookups']},
+                                    reflected_classes=sorted(refl))
+    return out
+
 def java_model_step(ctx, rep, build=None):
     cov = ctx.coverage
     t0 = time.time()
@@ -302,6 +329,13 @@ def java_model_step(ctx, rep, build=None):
             return
         meta = json.load(open(meta_path))
         rep['tie_broken'] += uns
+        # the data classes: copy constructors field by field, `return`s of the object-returning methods -> lean/Xrl/JGen/Objects.lean (theorems of Props/C19g.lean)
+        objx = None
+        try:
+            import jobjects
+            objx = jobjects.emit(REPO, JGEN_DIR)
+        except Exception as ex:
+            rep['tie_broken'].append('tools/jobjects.py could not read the data classes of java/: %s' % str(ex)[:300])
         ctx.tick('j2lean', t); t = time.time()
         ok_model, log_model = _lake(['Xrl.JGen.Dispatch', 'Xrl.Gen.Load', 'Xrl.Core.Dump'])
         ctx.tick('lake_jgen', t); t = time.time()
@@ -334,6 +368,12 @@ def java_model_step(ctx, rep, build=None):
                 if extra: rep['problems'].append('axiom audit: %s depends on %s' % (th, sorted(extra)))
                 else: good += 1
         cov['java_theorems_discharged'] = good
+    # the object table against the compiled classes (java.lang.reflect through the driver's `!classes`): same public fields, same types, same finality
+    if objx is not None:
+        try:
+            rep['tie_broken'] += object_table_tie(b, objx, cov)
+        except BuildError as ex:
+            rep['tie_broken'].append('object table tie could not run: ' + str(ex)[:300])
     # data path
     dp = data_path_check()
     rep['tie_broken'] += dp
